@@ -171,8 +171,18 @@ func c18lane(c *Check, rng *rand.Rand, lane, edits int) {
 	if !verify("initial") {
 		return
 	}
+	extra := 0 // filler addresses (outside 127.0.0.0/8) added to the next write
 	write := func(method string) {
-		content := []byte(WhiteListYAML(st.enable, st.ips()))
+		ips := st.ips()
+		if rng.Intn(3) == 0 && len(ips) > 1 {
+			// the same address listed more than once
+			ips = append(ips, ips[rng.Intn(len(ips))], ips[0])
+		}
+		for k := 0; k < extra; k++ {
+			ips = append(ips, fmt.Sprintf("10.%d.%d.%d", k>>16&255, k>>8&255, k&255))
+		}
+		extra = 0
+		content := []byte(WhiteListYAML(st.enable, ips))
 		switch method {
 		case "rewrite-in-place":
 			must(os.WriteFile(file, content, 0o644), "write whitelist")
@@ -191,7 +201,7 @@ func c18lane(c *Check, rng *rand.Rand, lane, edits int) {
 	}
 	methods := []string{"rewrite-in-place", "rename-over", "truncate-then-write"}
 	for e := 0; e < edits; e++ {
-		kind := []string{"add", "remove", "remove", "enable", "disable", "replace-all", "same", "double"}[rng.Intn(8)]
+		kind := []string{"add", "remove", "remove", "enable", "disable", "replace-all", "same", "double", "double-long-then-short", "remove-one-of-duplicates"}[rng.Intn(10)]
 		method := methods[rng.Intn(len(methods))]
 		apply := func(k string) {
 			switch k {
@@ -218,7 +228,24 @@ func c18lane(c *Check, rng *rand.Rand, lane, edits int) {
 				st.enable = true
 			}
 		}
-		if kind == "double" {
+		if kind == "double-long-then-short" {
+			// a very long list immediately followed by a short one: the reload of the first
+			// is still running when the second edit arrives
+			st.enable = true
+			apply("add")
+			extra = 30000
+			write("rename-over")
+			time.Sleep(time.Duration(10+rng.Intn(40)) * time.Millisecond)
+			apply("remove")
+			write("rename-over")
+			method = "rename-over"
+		} else if kind == "remove-one-of-duplicates" {
+			st.enable = true
+			apply("add")
+			write(method)
+			apply("remove")
+			write(method)
+		} else if kind == "double" {
 			apply("add")
 			write(methods[rng.Intn(len(methods))])
 			apply("remove")
